@@ -21,7 +21,7 @@ Definition sp (v : vec) := (vp v, vm v).
 Definition run (c : case) :=
   match c with
   | CU o x w s => (option_map obs5 (eval_unary o x w s), option_map sp (spec_unary o x w s))
-  | CB o x y w s => (option_map obs5 (eval_binary o x y w s), option_map sp (spec_binary o x y w s))
+  | CB o x y w s => (option_map obs5 (eval_binary o x y w s), option_map sp (spec_binary_exec o x y w s))
   end.
 """
 
